@@ -126,10 +126,28 @@ fn resolve_foreign_keys(
     for (locale, value_path) in foreign_keys_paths {
         let value = values
             .get_value_at(&locale, &value_path)
+            // the path was registered before the plurals were merged:
+            // a foreign key written in a plural form (`key_one`) now lives in the plural `key`.
+            .or_else(|| {
+                let plural_path = plural_key_path(&value_path)?;
+                values.get_value_at(&locale, &plural_path)
+            })
             .unwrap_at("resolve_foreign_keys_1");
         value.resolve_foreign_key(values, &locale, default_locale, extensions, &value_path)?;
     }
     Ok(())
+}
+
+/// If the last key of the path is a plural form (`key_one`, `key_ordinal_few`, ..), return the path of the merged plural (`key`).
+fn plural_key_path(path: &KeyPath) -> Option<KeyPath> {
+    let (last, parents) = path.path.split_last()?;
+    let (base_key, suffix) = last.name.rsplit_once('_')?;
+    plurals::PluralForm::try_from_str(suffix)?;
+    let base_key = base_key.strip_suffix("_ordinal").unwrap_or(base_key);
+    let mut plural_path = KeyPath::new(path.namespace.clone());
+    plural_path.path = parents.to_vec();
+    plural_path.push_key(Key::new(base_key)?);
+    Some(plural_path)
 }
 
 fn check_locales(
